@@ -643,11 +643,6 @@ func (l Line) webVTTBytes() (c []byte) {
 }
 
 func (li LineItem) webVTTBytes(previous, next *LineItem) (c []byte) {
-	// Add timestamp
-	if li.StartAt > 0 {
-		c = append(c, []byte("<"+formatDurationWebVTT(li.StartAt)+">")...)
-	}
-
 	// Get color
 	var color string
 	if li.InlineStyle != nil && li.InlineStyle.TTMLColor != nil {
@@ -665,6 +660,11 @@ func (li LineItem) webVTTBytes(previous, next *LineItem) (c []byte) {
 			}
 			c = append(c, []byte(tag.startTag())...)
 		}
+	}
+
+	// Add timestamp right before the text, otherwise it's not attached to the text when parsed back
+	if li.StartAt > 0 {
+		c = append(c, []byte("<"+formatDurationWebVTT(li.StartAt)+">")...)
 	}
 	c = append(c, []byte(escapeHTML(li.Text))...)
 	if li.InlineStyle != nil {
